@@ -105,6 +105,14 @@ Example C20_guards_inhabited :
   unres (run (init [0; 1]) h_good) = [].
 Proof. vm_compute. repeat split. Qed.
 
+(* RTM_NEWNEIGH without NDA_LLADDR (ARP timeout) and RTM_DELNEIGH while a route waits: nothing is installed,
+   neither then nor after the route is withdrawn and the neighbour finally resolves *)
+Example C20_failed_neighbour_installs_nothing :
+  run_ok goodu_ev (init [0]) h_failed_neigh = true /\
+  lpm (bs (run (init [0]) (firstn 2 h_failed_neigh))) = [] /\
+  lpm (bs (run (init [0]) h_failed_neigh)) = [] /\ unres (run (init [0]) h_failed_neigh) = [].
+Proof. vm_compute. repeat split. Qed.
+
 (* the two histories that refuted the mirror before the repair (F29a, F29b): both routes installed; nothing installed *)
 Example C20_repaired_histories :
   lpm (bs (run (init [0]) h_overwritten)) = [((0, 0), 0); ((0, 1), 0)] /\
